@@ -227,6 +227,14 @@ def npix_param(v):
     return int(math.ceil(float(v)))
 
 
+def spell_axes(case, per):
+    """the periodic axes as the caller may hand them over: one number, a list, a tuple or an array of numbers"""
+    if len(per) == 1 and not case.get('per_as_list'):
+        return per[0]
+    sp = case.get('per_spelling', 'list')
+    return tuple(per) if sp == 'tuple' else np.array(per) if sp == 'array' else list(per)
+
+
 def compute_impl(case, verbose=False, neighbours_obj=None, arr=None, fail=None):
     """run Dendrogram.compute on the case; returns (dendrogram, data array).  `arr`: use this array object;
     `fail` = ('crit', k) / ('nbrs', k): a user callback raises `Injected` at its (k+1)-th call"""
@@ -252,7 +260,7 @@ def compute_impl(case, verbose=False, neighbours_obj=None, arr=None, fail=None):
         per = list(case['periodic'])
         if case.get('per_negative'):
             per = [a_ - len(case['shape']) for a_ in per]
-        kw['neighbours'] = neighbours_obj or periodic_neighbours(per if len(per) != 1 or case.get('per_as_list') else per[0])
+        kw['neighbours'] = neighbours_obj or periodic_neighbours(spell_axes(case, per))
     elif case.get('adj', 'grid') == 'diag':
         kw['neighbours'] = diag_neighbours
     elif case.get('adj', 'grid') == 'holes':
